@@ -99,6 +99,33 @@ def constructed_purity(case):
         raise PropertyViolation("C05.save_deterministic", "constructed %s: two saves of one object differ" % case["src"])
 
 
+_OTHER = {}
+
+
+def other_project():
+    """A second, unrelated project whose modules have every kind of state a save passes through
+    (options away from their defaults, bindings, curves, an embedded project, a sample)."""
+    from rv.api import Pattern, Project, Synth, m
+
+    p = Project()
+    p.name = "other"
+    ms = p.new_module(m.MultiSynth, round_note_x=True, out_port_mode=3, static_note_c5=True)
+    ag = p.new_module(m.AnalogGenerator, smooth_frequency_change=False, filter_envelope_scaling_per_key=True, retain_phase=True, volume_envelope_scaling_per_key=True)
+    sc = p.new_module(m.Sound2Ctl, send_only_changed_values=False, record_values=True)
+    mm = p.new_module(m.MetaModule, event_output=False, arpeggiator=True, user_defined_controllers=3)
+    mm.project.new_module(m.MultiSynth, round_pitch_y=True, trigger=True)
+    sm = p.new_module(m.Sampler, record_on_play=True, record_in_mono=True, fit_to_pattern=200)
+    smp = sm.Sample()
+    smp.data = bytes(range(64))
+    sm.samples[3] = smp
+    sm.effect = Synth(m.AnalogGenerator(smooth_frequency_change=False))
+    ms >> ag >> sc >> mm >> sm >> p.output
+    pat = Pattern(tracks=2, lines=2)
+    p.attach_pattern(pat)
+    pat.data[1][1].module = 3
+    return p
+
+
 def stability(x, cycles, what):
     """Returns 'unloadable' or 'ok'; raises PropertyViolation."""
     try:
@@ -127,6 +154,30 @@ def stability(x, cycles, what):
     snap_any(o2)
     if o2.read() != y2:
         raise PropertyViolation("C05.inspection.changes_output", "%s: reading the attributes of a loaded object between two saves changed what it writes" % what, key="C05.inspection")
+    # two saves in progress at the same time (two programs parts pulling chunks from two objects in turn):
+    # each still writes its own file
+    from itertools import zip_longest
+
+    def as_bytes(pairs):
+        out = []
+        for name, payload in pairs:
+            if name is None:
+                continue
+            out.append(bytes(name[:4]).ljust(4, b" ") + struct.pack("<I", len(payload)) + bytes(payload))
+        return b"".join(out)
+
+    if "p" not in _OTHER:
+        _OTHER["p"] = other_project()
+    other = _OTHER["p"]
+    other_alone = other.read()
+    got_a, got_b = [], []
+    for ca, cb in zip_longest(o.chunks(), other.chunks()):
+        if ca is not None:
+            got_a.append(ca)
+        if cb is not None:
+            got_b.append(cb)
+    if as_bytes(got_a) != y or as_bytes(got_b) != other_alone:
+        raise PropertyViolation("C05.save_is_pure.interleaved", "%s: written chunk by chunk in turn with another project, one of the two does not write what it writes alone" % what, key="C05.interleaved")
     # the program goes on to use the library for something else (other objects, other files) while
     # this object stays alive; it still writes the same bytes afterwards
     from vlib import noise
